@@ -213,6 +213,10 @@ def run(tier, seed, replay=None):
         # theorems, tied term for term to the real stages through hooks
         from checks import c01_mir
         c01_mir.mir(ck, tier, seed)
+        # expression lowering (hir_lowering lower / lower_binary / lower_if_else / lower_block / lower_lambda): Gallina mirror,
+        # soundness theorem against a source semantics, tied body by body to the real HIR
+        from checks import c01_expr
+        c01_expr.expr(ck, tier, seed)
     if ck.corr_fail and not replay:
         # the model no longer describes what the compiler does: search for a program on which the difference is observable
         # (every type of the generator's catalogue up to two generic levels, applied to every constructor path)
